@@ -336,30 +336,45 @@ def r5_cursor_half_open(c, facts, rule='C17.R5'):
 
 def r6_folders(c, facts, rule='C17.R6'):
     """a request about a document is answered from every workspace folder whose program contains that document - wherever
-    the file lies on disk (a module imported from outside the folder root is part of the program)"""
-    R = c.rule(rule, 'FOLDERS: the folders that answer a request are selected by Folder::contains alone')
-    ff = c.anchor(R, 'oal_client::lsp::handlers::find_folders')
-    fam = [ff] + list(facts.closures_of(ff))
-    sel = 0
+    the file lies on disk (a module imported from outside the folder root is part of the program), and from all of them
+    (a module shared by two folders has uses in both programs)"""
+    R = c.rule(rule, 'FOLDERS: the folders that answer a request are all those, and only those, that Folder::contains selects')
+    # the selecting closures: closures of the handlers module that ask Folder::contains
+    sel = []
+    for g in facts.fns.values():
+        if g.mir and g.qname.startswith('oal_client::lsp::handlers::') and '{closure' in g.qname and any(P.call_blocks(g, 'Folder::contains')):
+            sel.append(g)
+    direct = [g for g in facts.fns.values() if g.mir and g.qname.startswith('oal_client::lsp::handlers::') and '{closure' not in g.qname and any(P.call_blocks(g, 'Folder::contains'))]
+    c.floor(R, 'places of the handlers that ask Folder::contains', len(sel) + len(direct), 1)
     other = set()
-    for g in fam:
-        if not g.mir:
-            continue
+    first_only = set()
+    for g in sel:
         names = {P.strip(callee_of(t)['def']).split('::')[-1] for b, t in g.calls() if callee_of(t)}
-        if g is ff:
+        tests = (names - {'contains'}) & {'starts_with', 'ends_with', 'eq', 'ne', 'strip_prefix', 'make_relative', 'is_some', 'is_none', 'cmp', 'partial_cmp', 'matches'}
+        other |= tests
+        parent = facts.fns.get(g.id.split('::{closure')[0]) or next((f for f in facts.fns.values() if f.id == g.id.rsplit('::{closure', 1)[0]), None)
+        if parent is None or not parent.mir:
             continue
-        # a closure handed to a selecting adaptor
-        if 'contains' in names and any(P.call_blocks(g, 'Folder::contains')):
-            sel += 1
-            continue
-        tests = names & {'starts_with', 'ends_with', 'contains', 'eq', 'ne', 'strip_prefix', 'make_relative', 'is_some', 'is_none', 'cmp', 'partial_cmp', 'matches'}
-        if tests:
-            other |= tests
-    c.floor(R, 'selecting closures of find_folders that ask Folder::contains', sel, 1)
+        # sibling closures of the same chain (`.filter(|(root, _)| ..starts_with(..))`)
+        for h in facts.closures_of(parent):
+            if h.id != g.id and h.mir:
+                hn = {P.strip(callee_of(t)['def']).split('::')[-1] for b, t in h.calls() if callee_of(t)}
+                other |= hn & {'starts_with', 'ends_with', 'strip_prefix', 'make_relative', 'matches'}
+        # the adaptor the closure is handed to
+        for b, t in parent.calls():
+            info = callee_of(t)
+            if not info or not any(a.get('ty', '') == '{closure@%s}' % g.d.get('span', '?') for a in t['args']):
+                continue
+            last = P.strip(info['def']).split('::')[-1]
+            if last in ('find', 'find_map', 'position', 'any', 'take_while', 'skip_while', 'rfind', 'rposition', 'min_by_key', 'max_by_key'):
+                first_only.add('%s:%s' % (parent.qname.split('::')[-1], last))
     if other:
-        c.bad(R, 'find_folders:extra-selection:%s' % ','.join(sorted(other)), 'find_folders also selects folders by %s: a module that the program imports from outside the folder root gets no answer (go-to-definition and find-references inside it return nothing)' % sorted(other))
-    else:
-        c.ok(R, {'find_folders': 'Folder::contains only'})
+        c.bad(R, 'find_folders:extra-selection:%s' % ','.join(sorted(other)), 'the folders that answer are also selected by %s: a module that the program imports from outside the folder root gets no answer (go-to-definition and find-references inside it return nothing)' % sorted(other))
+    if first_only:
+        c.bad(R, 'folders:first-match-only:%s' % ','.join(sorted(first_only)), 'only the first workspace folder that contains the document answers (%s): a module shared by two programs is looked up, referenced and renamed in one of them only' % sorted(first_only))
+    if not other and not first_only:
+        c.ok(R, {'folder selection': 'Folder::contains only, every matching folder', 'sites': len(sel) + len(direct)})
+
 
 
 def run(c, facts):
